@@ -66,6 +66,7 @@ class Facts:
         self.bodies = {}
         self.adts = {}
         self.consts = {}
+        self.foreign = {}
         self.crates = []
         for c in crates:
             self.crates.append(c["crate"])
@@ -84,6 +85,8 @@ class Facts:
                 self.adts[a["path"]] = a
             for k in c["consts"]:
                 self.consts[k["path"]] = k
+            for k in c.get("foreign_fns", []):
+                self.foreign[k["path"]] = k["sig"]
 
     def body(self, path):
         return self.bodies.get(path)
